@@ -495,6 +495,38 @@ def handleZoo (name : String) : String :=
     | some (_, sp, region) => reply (zooTok m) (zooTok sp) [region]
     | none => reply (zooTok m) (zooTok m) []
 
+
+/-! ### histories of calls (`rets`) -/
+
+def rfn? : String → Option RFn
+  | "f0" => some .f0 | "f1" => some .f1 | "f2" => some .f2 | "f3" => some .f3 | "fe" => some .fe | _ => none
+
+def retOp? (s : String) : Option RetOp :=
+  match s.splitOn "." with
+  | "c" :: f :: args => do let f ← rfn? f; let as ← allSome (args.map int?); pure (.call f as)
+  | "k" :: f :: args => do let f ← rfn? f; let as ← allSome (args.map int?); pure (.copyCall f as)
+  | ["t", a] => (int? a).map .twice
+  | ["w", i, j, v] => do let i ← nat? i; let j ← nat? j; let v ← int? v; pure (.write i j v)
+  | _ => none
+
+def rvOut : RV → String
+  | .int n => toString n
+  | .undef => "u"
+  | .err => "E"
+
+def rresOut : RRes → String
+  | .undef => "u"
+  | .single v => rvOut v
+  | .list vs => "[" ++ ",".intercalate (vs.map rvOut) ++ "]"
+
+def retsOut (states : List (List RRes)) : String :=
+  "#".intercalate (states.map (fun rs => let t := ";".intercalate (rs.map rresOut); t ++ "|" ++ t))
+
+def handleRets (steps : String) : String :=
+  match allSome ((steps.splitOn ";").map retOp?) with
+  | some ops => let out := retsOut (retRun [] ops); reply out out []
+  | none => "bad-op"
+
 def handle (ws : List String) : String :=
   match ws with
   | ["num", t, n] => match nt? t, num? n with
@@ -560,6 +592,7 @@ def handle (ws : List String) : String :=
      | none => "bad-op")
   | "view" :: rest => handleView rest
   | "recs" :: rest => handleRecs rest
+  | ["rets", steps] => handleRets steps
   | ["zoo", name] => handleZoo name
   | ["cb", k] => (match cbKind? k with
       | some k => reply (cbOut (callbackOutcome k)) (cbOut (callbackOutcome k)) []
